@@ -338,6 +338,40 @@ PROPS = {
     },
 }
 
+LST_COMMON = {
+    "run_files": ["Run/CaseLst.v"],
+    "imports": ["Lib.Bytes", "Limiter.Limiter", "Listener.Machine", "Listener.Wire", "Run.CaseLst"],
+    "case_type": "lstcase",
+    "shard": 20,
+    "quick_scale": 1, "thorough_scale": 6, "search_factor": 3,
+    "ties": ["harness-app/src/bin/listener.rs: the real Listener::listen / passage::start on loopback TCP in a paused runtime vs Listener/Machine.v (outcomes, order, windows)",
+             "header classes by construction vs proxy_header::ProxyHeader::parse under the configured versions"],
+    "trusted_base": COMMON_TB + ["hand model of listener.rs (after the C16 repair) in Listener/Machine.v and of the Config->Listener->Connection path in Listener/Wire.v",
+                                 "tokio scheduler/timer/TCP, TaskTracker, CancellationToken, std Mutex, proxy-header: exercised, not modelled",
+                                 "Limiter/Limiter.v as the meaning of RateLimiter::enqueue (C13)"],
+    "level_text": "PARTIAL proof: the accept/admit/deadline/drain logic is an executable Gallina machine (Listener/Machine.v) with the theorems of Props/C14-C17.v proved for every event history; the configuration path is Listener/Wire.v. That tokio's timer fires, that the scheduler runs a spawned task, and that the kernel hands over accepted sockets is exercised by the listener harness (real Listener::listen / passage::start on loopback TCP under a paused clock), not proved.",
+}
+PROPS.update({
+"C14": dict(LST_COMMON, props_file="Props/C14.v", checkers={"WIRE": "check_c14", "DL": "check_c14"},
+            harness=[{"bin": "listener", "crate": "harness-app", "families": ["WIRE", "DL"], "env": {"VERIF_FAMILY": "WIRE,DL"}}],
+            allowed_axioms=[], assumptions=["timer events are delivered (C14_deadline hypothesis)", "1 <= max_packet_length < 2^31"],
+            rule="WIRE: passage::start with max {64,100,300,1000,10000,20000} x expiry {1,100,3600,21600,50000,86400}; DL: timeout {3,10,20,40} s x 11 client behaviours x PROXY; non-trivial = every case"),
+"C15": dict(LST_COMMON, props_file="Props/C15.v", checkers={"ADM": "check_c15"},
+            harness=[{"bin": "listener", "crate": "harness-app", "families": ["ADM"], "env": {"VERIF_FAMILY": "ADM"}}],
+            allowed_axioms=[], assumptions=["see notes/Listener.md"],
+            rule="ADM: arrival histories of 1-12 connections with PROXY v1/v2 headers (IPv4/IPv6 sources, several balancer peers, LOCAL, invalid, disabled version, none) and limits 1-3; non-trivial = case with a rate-limit rejection or an invalid header"),
+"C16": dict(LST_COMMON, props_file="Props/C16.v", checkers={"STALL": "check_c16"},
+            harness=[{"bin": "listener", "crate": "harness-app", "families": ["STALL"], "env": {"VERIF_FAMILY": "STALL"}}],
+            allowed_axioms=["ClassicalDedekindReals.sig_not_dec", "ClassicalDedekindReals.sig_forall_dec",
+                            "FunctionalExtensionality.functional_extensionality_dep", "Classical_Prop.classic"],
+            assumptions=["scheduler fairness and the kernel accept queue are not modelled; the bound is measured under the paused clock"],
+            rule="STALL: 6 stall points (before / inside the PROXY header, mid-frame, mid-login, ignoring keep-alives, silent) x k in 1..4 stalled clients x PROXY x limiter; a probe client must complete a status exchange within the bound; every case non-trivial"),
+"C17": dict(LST_COMMON, props_file="Props/C17.v", checkers={"STOP": "check_c17", "SIG": "check_c17"},
+            harness=[{"bin": "listener", "crate": "harness-app", "families": ["STOP", "SIG"], "env": {"VERIF_FAMILY": "STOP,SIG"}}],
+            allowed_axioms=[], assumptions=["events are processed to quiescence: the instant at which the accept loop observes the token is a modelling assumption"],
+            rule="STOP: 1-4 in-flight sessions, stop injected at a seeded instant, late arrivals; SIG: SIGINT through passage::start; every case non-trivial"),
+})
+
 
 def nontrivial(pid, fam, term):
     if pid == "C09":
